@@ -63,6 +63,10 @@ CLAIMED = {
  "C13": dict(engine="belt", technique="TLC model checking of ConveyorRef.tla (R_C13_*: frozen belt, close-up, no overlap, and the closed forms offer = enter + L + stalled time / offer = max(enter + L, take(pred) + Slot)) + TLC trace validation (T_C13_NoAdmit, T_C13_Frozen, T_C13_CloseUp, T_C13_AdmitToCap) of runs of the real conveyors",
    text="Stall behaviour of both modes judged on real runs against closed forms that TLC proves for the positional reference model. The unchanged tree violates several clauses (slotted belt never stalls, continuous belt admits and advances during a stall, followers stop short): these are recorded known findings with precise signatures (clause, class, mode, kind of deviation); any other deviation is reported.",
    ref="5 C13, 3.4"),
+ "C19": dict(engine="determinism", category="exploration",
+   technique="self-composition trace specification Trace_Determinism.tla evaluated by TLC on pairs of recorded runs (same interpreter twice; fresh interpreter processes with PYTHONHASHSEED 0 / 1 / random / 7777 and different amounts of pre-allocated garbage); time monotonicity is a clause of every trace specification",
+   text="Reproducibility is a hyperproperty over two runs: each sampled configuration (every family with RANDOM policies under a fixed seed, conveyors whose process tables are keyed by item id, fleets, combiners, multi-worker machines, plus seeded random configurations) is run six times and TLC compares the complete logs (movements, tokens, counters, snapshots, final statistics) event by event. Hash seeds and heap layouts are sampled, not enumerated, hence exploration level.",
+   ref="5 C19"),
 }
 NOTE = ("trusted: TLC 1.8, CommunityModules Json/IOUtils, SimPy kernel semantics (modelled, not verified), the ledger fold of the "
         "trace specifications, CPython; small-scope bounds for leg A/B as listed in the evidence; integer tick times")
@@ -95,6 +99,8 @@ m = {
  "engines": [
    {"name": "store", "path": "fsverif/store_engine.py", "serves_properties": ["C01","C02","C04","C05","C06","C07","C11","C14"],
     "kind_free_text": "TLA+ StoreCore/Store model checked by TLC; exported graph walked on the real store/edge classes; traces validated by TLC (Trace_Store, Trace_StoreBind)"},
+   {"name": "determinism", "path": "fsverif/determinism_check.py", "serves_properties": ["C19"],
+    "kind_free_text": "differential runs of the real factories compared by TLC (Trace_Determinism.tla, self-composition)"},
    {"name": "belt", "path": "fsverif/belt_check.py", "serves_properties": ["C12","C13"],
     "kind_free_text": "positional reference conveyor ConveyorRef.tla model checked by TLC; scripted producer/consumer runs of the real conveyor edges validated by TLC (Trace_Conveyor)"},
    {"name": "factory", "path": "fsverif/factory_engine.py", "serves_properties": ["C03","C08","C09","C10","C15","C16","C17","C18","C20"],
